@@ -34,8 +34,15 @@ import (
 //                  has since restarted the WAL, and no attempt has looked at the WAL yet.
 // A kept segment must be exactly the frames [captured, mxFrame) of the current generation (as a set of
 // page images: frames superseded inside the segment are compacted away, which is unobservable), an
-// attempt must report WALReset exactly when pendingReset holds, and base + kept segments applied in
-// order must equal the live database.
+// attempt must report WALReset exactly when pendingReset holds, a generation that a writer ends by
+// restarting the WAL must have been captured completely, and base + kept segments applied in order
+// must equal the live database.
+//
+// Recorded defect class (verifFinding C06-failed-full-then-incremental-loses-frames, natively
+// reproduced): a full-snapshot checkpoint (nil writer) that fails after moving every frame leaves
+// frames in the database file that no kept segment holds (ghost "exposed"); when a writer then
+// restarts the WAL they are gone from the WAL too (ghost "lost") and an incremental snapshot taken
+// before a full one succeeds is wrong. Every other violation is still reported.
 
 const (
 	verifC06NP      = 3 // pages (natively: one single-row table per page) a write transaction can touch
